@@ -85,9 +85,35 @@ struct Case {
     consume: Option<usize>, // iter_fold: items taken before the iterator is dropped; None = {all, 0}
 }
 
-const FOLD_KINDS: [&str; 5] = ["owned", "view", "view_strided", "view_cols", "owned_forder"];
-const ITER_KINDS: [&str; 5] = ["owned", "viewmut", "viewmut_window", "viewmut_strided", "owned_forder"];
+const FOLD_KINDS: [&str; 9] = ["owned", "view", "view_strided", "view_cols", "owned_forder", "view_reversed", "view_transposed", "owned_sliced", "owned_sliced_cols"];
+const ITER_KINDS: [&str; 9] = ["owned", "viewmut", "viewmut_window", "viewmut_strided", "owned_forder", "owned_sliced", "viewmut_reversed", "viewmut_transposed", "owned_sliced_cols"];
 const CV_KINDS: [&str; 3] = ["owned", "viewmut", "viewmut_window"];
+/// cross validation on an owned array sliced out of a larger allocation (with weights): modest subset
+const CV_KINDS_SUBSET: [&str; 1] = ["owned_sliced"];
+
+/// How the dataset's arrays sit in their parent allocation.
+///  plain      the arrays are the allocation, standard layout
+///  forder     column-major owned arrays
+///  strided    every second row of a parent with twice the rows (the others hold poison values)
+///  cols       a column range of a wider parent (records: columns 1..=f of f+2; targets alike)
+///  window     rows GUARD..GUARD+n of a parent with guard rows; contiguous standard layout, offset start
+///  reversed   reversed-row view / array of a parent holding the rows in reverse order (negative stride)
+///  transposed transposed view of a feature-major parent (f x n, t x n): column-major strides
+fn family(kind: &str) -> &'static str {
+    match kind {
+        "owned" | "view" | "viewmut" => "plain",
+        "owned_forder" => "forder",
+        "view_strided" | "viewmut_strided" => "strided",
+        "view_cols" | "owned_sliced_cols" => "cols",
+        "viewmut_window" | "owned_sliced" => "window",
+        "view_reversed" | "viewmut_reversed" => "reversed",
+        "view_transposed" | "viewmut_transposed" => "transposed",
+        _ => panic!("unknown storage kind {}", kind),
+    }
+}
+fn is_owned_kind(kind: &str) -> bool {
+    kind.starts_with("owned")
+}
 const EVALS: [&str; 4] = ["mae", "first", "colsum", "const"];
 const TSHAPES: [(usize, usize); 4] = [(1, 1), (2, 1), (2, 2), (2, 3)];
 const GUARD: usize = 2;
@@ -134,7 +160,7 @@ fn tgt_tag(i: usize, c: usize) -> u32 {
 }
 /// Values stored outside the dataset's window (guard rows, interleaved rows, extra columns).
 fn decoy(r: usize, j: usize) -> u32 {
-    (50000 + 10 * r + j) as u32
+    (10_000_000 + 10 * r + j) as u32 // above every tag (n <= 4097), exact in f32
 }
 
 /// The rows of one dataset part as the real code returned / showed them (bit patterns).
@@ -253,58 +279,41 @@ fn ref_kfold(n: usize, k: usize) -> Vec<(Vec<usize>, Vec<usize>)> {
 // storage kinds
 // ------------------------------------------------------------------------------------------------
 
-/// Parent buffers. The dataset is either an owned copy of the window or a (mutable) view into it.
+/// Parent buffers. The dataset is an owned copy of the window, the parent narrowed in place
+/// (`owned_sliced*`: an owned array that does not start at / cover its allocation, as `slice_move`
+/// produces) or a (mutable) view into the parent.
 fn build_parents<F: Elem, E: Elem>(c: &Case) -> (Array2<F>, ArrayD<E>) {
     let (n, f, t) = (c.n, c.f, c.tcols);
     let two_d = c.tix == 2;
-    // value at logical parent position
-    let kind = c.kind.as_str();
-    let recv = |r: usize, j: usize| -> F {
-        let tag = match kind {
-            "view_strided" | "viewmut_strided" => {
-                if r % 2 == 0 { rec_tag(r / 2, j) } else { decoy(r, j) }
-            }
-            "view_cols" => {
-                if j >= 1 && j <= f { rec_tag(r, j - 1) } else { decoy(r, j) }
-            }
-            "viewmut_window" => {
-                if r >= GUARD && r < GUARD + n { rec_tag(r - GUARD, j) } else { decoy(r, j) }
-            }
-            _ => rec_tag(r, j),
-        };
-        F::from_tag(tag)
+    let fam = family(&c.kind);
+    // tag at the logical position (r, j) of the parent BEFORE transposition
+    let tag_at = |r: usize, j: usize, width: usize, real: &dyn Fn(usize, usize) -> u32, poison: u32| -> u32 {
+        match fam {
+            "strided" => if r % 2 == 0 { real(r / 2, j) } else { decoy(r, j) + poison },
+            "cols" => if j >= 1 && j <= width { real(r, j - 1) } else { decoy(r, j) + poison },
+            "window" => if r >= GUARD && r < GUARD + n { real(r - GUARD, j) } else { decoy(r, j) + poison },
+            "reversed" => real(n - 1 - r, j),
+            _ => real(r, j),
+        }
     };
-    let tgtv = |r: usize, cc: usize| -> E {
-        let tag = match kind {
-            "view_strided" | "viewmut_strided" => {
-                if r % 2 == 0 { tgt_tag(r / 2, cc) } else { decoy(r, cc) + 20000 }
-            }
-            "view_cols" => {
-                if cc >= 1 { tgt_tag(r, cc - 1) } else { decoy(r, cc) + 20000 }
-            }
-            "viewmut_window" => {
-                if r >= GUARD && r < GUARD + n { tgt_tag(r - GUARD, cc) } else { decoy(r, cc) + 20000 }
-            }
-            _ => tgt_tag(r, cc),
-        };
-        E::from_tag(tag)
-    };
-    let (prow, pcol, tcol, t2d) = match kind {
-        "view_strided" | "viewmut_strided" => (2 * n, f, t, two_d),
-        "view_cols" => (n, f + 2, if two_d { t + 1 } else { 2 }, true),
-        "viewmut_window" => (n + 2 * GUARD, f, t, two_d),
+    let recv = |r: usize, j: usize| -> F { F::from_tag(tag_at(r, j, f, &rec_tag, 0)) };
+    let tgtv = |r: usize, cc: usize| -> E { E::from_tag(tag_at(r, cc, if two_d { t } else { 1 }, &tgt_tag, 20000)) };
+    let (prow, pcol, tcol, t2d) = match fam {
+        "strided" => (2 * n, f, t, two_d),
+        "cols" => (n, f + 2, if two_d { t + 1 } else { 2 }, true),
+        "window" => (n + 2 * GUARD, f, t, two_d),
         _ => (n, f, t, two_d),
     };
-    let rec = if kind == "owned_forder" {
-        Array2::from_shape_fn((prow, pcol).f(), |(r, j)| recv(r, j))
-    } else {
-        Array2::from_shape_fn((prow, pcol), |(r, j)| recv(r, j))
+    let rec = match fam {
+        "forder" => Array2::from_shape_fn((prow, pcol).f(), |(r, j)| recv(r, j)),
+        "transposed" => Array2::from_shape_fn((pcol, prow), |(j, r)| recv(r, j)), // feature-major
+        _ => Array2::from_shape_fn((prow, pcol), |(r, j)| recv(r, j)),
     };
     let tgt: ArrayD<E> = if t2d {
-        if kind == "owned_forder" {
-            Array2::from_shape_fn((prow, tcol).f(), |(r, cc)| tgtv(r, cc)).into_dyn()
-        } else {
-            Array2::from_shape_fn((prow, tcol), |(r, cc)| tgtv(r, cc)).into_dyn()
+        match fam {
+            "forder" => Array2::from_shape_fn((prow, tcol).f(), |(r, cc)| tgtv(r, cc)).into_dyn(),
+            "transposed" => Array2::from_shape_fn((tcol, prow), |(cc, r)| tgtv(r, cc)).into_dyn(),
+            _ => Array2::from_shape_fn((prow, tcol), |(r, cc)| tgtv(r, cc)).into_dyn(),
         }
     } else {
         Array1::from_shape_fn(prow, |r| tgtv(r, 0)).into_dyn()
@@ -312,13 +321,38 @@ fn build_parents<F: Elem, E: Elem>(c: &Case) -> (Array2<F>, ArrayD<E>) {
     (rec, tgt)
 }
 
+/// Narrows a parent (array or view) to the dataset's records, in place.
 fn narrow_rec<S: RawData>(v: &mut ArrayBase<S, Ix2>, c: &Case) {
-    match c.kind.as_str() {
-        "view_strided" | "viewmut_strided" => v.slice_axis_inplace(Axis(0), Slice::new(0, None, 2)),
-        "view_cols" => v.slice_axis_inplace(Axis(1), Slice::from(1..c.f + 1)),
-        "viewmut_window" => v.slice_axis_inplace(Axis(0), Slice::from(GUARD..GUARD + c.n)),
+    match family(&c.kind) {
+        "strided" => v.slice_axis_inplace(Axis(0), Slice::new(0, None, 2)),
+        "cols" => v.slice_axis_inplace(Axis(1), Slice::from(1..c.f + 1)),
+        "window" => v.slice_axis_inplace(Axis(0), Slice::from(GUARD..GUARD + c.n)),
+        "reversed" => v.invert_axis(Axis(0)),
+        "transposed" => v.swap_axes(0, 1),
         _ => {}
     }
+}
+/// Narrows a parent (array or view) to the dataset's targets.
+fn narrow_tgt<S: RawData, I: TargetDim>(mut v: ArrayBase<S, IxDyn>, c: &Case) -> ArrayBase<S, I> {
+    match family(&c.kind) {
+        "strided" => v.slice_axis_inplace(Axis(0), Slice::new(0, None, 2)),
+        "cols" => {
+            if c.tix == 2 {
+                v.slice_axis_inplace(Axis(1), Slice::from(1..c.tcols + 1))
+            } else {
+                v = v.index_axis_move(Axis(1), 1)
+            }
+        }
+        "window" => v.slice_axis_inplace(Axis(0), Slice::from(GUARD..GUARD + c.n)),
+        "reversed" => v.invert_axis(Axis(0)),
+        "transposed" => {
+            if v.ndim() == 2 {
+                v.swap_axes(0, 1)
+            }
+        }
+        _ => {}
+    }
+    v.into_dimensionality::<I>().expect("target dimensionality")
 }
 
 fn rec_view<'a, F>(p: &'a Array2<F>, c: &Case) -> ArrayView2<'a, F> {
@@ -332,29 +366,27 @@ fn rec_view_mut<'a, F>(p: &'a mut Array2<F>, c: &Case) -> ArrayViewMut2<'a, F> {
     v
 }
 fn tgt_view<'a, E, I: TargetDim>(p: &'a ArrayD<E>, c: &Case) -> ArrayView<'a, E, I> {
-    let mut v = p.view();
-    match c.kind.as_str() {
-        "view_strided" | "viewmut_strided" => v.slice_axis_inplace(Axis(0), Slice::new(0, None, 2)),
-        "view_cols" => {
-            if c.tix == 2 {
-                v.slice_axis_inplace(Axis(1), Slice::from(1..c.tcols + 1))
-            } else {
-                v = v.index_axis_move(Axis(1), 1)
-            }
-        }
-        "viewmut_window" => v.slice_axis_inplace(Axis(0), Slice::from(GUARD..GUARD + c.n)),
-        _ => {}
-    }
-    v.into_dimensionality::<I>().expect("target dimensionality")
+    narrow_tgt(p.view(), c)
 }
 fn tgt_view_mut<'a, E, I: TargetDim>(p: &'a mut ArrayD<E>, c: &Case) -> ArrayViewMut<'a, E, I> {
-    let mut v = p.view_mut();
-    match c.kind.as_str() {
-        "view_strided" | "viewmut_strided" => v.slice_axis_inplace(Axis(0), Slice::new(0, None, 2)),
-        "viewmut_window" => v.slice_axis_inplace(Axis(0), Slice::from(GUARD..GUARD + c.n)),
-        _ => {}
+    narrow_tgt(p.view_mut(), c)
+}
+/// Owned dataset arrays of the case's kind: "owned" = fresh standard-layout copies; every other
+/// owned kind = the parent allocation itself, narrowed in place (what `slice_move` yields).
+fn owned_arrays<F: Elem, E: Elem, I: TargetDim>(prec: &Array2<F>, ptgt: &ArrayD<E>, c: &Case) -> (Array2<F>, Array<E, I>) {
+    if c.kind == "owned" {
+        (rec_view(prec, c).to_owned(), tgt_view::<E, I>(ptgt, c).to_owned())
+    } else {
+        let mut r = prec.clone();
+        narrow_rec(&mut r, c);
+        (r, narrow_tgt::<_, I>(ptgt.clone(), c))
     }
-    v.into_dimensionality::<I>().expect("target dimensionality")
+}
+/// Weights given to the sliced owned kinds: themselves a slice of a larger allocation.
+fn sliced_weights(n: usize) -> Array1<f32> {
+    let mut w = Array1::from_shape_fn(n + 2 * GUARD, |i| if i >= GUARD && i < GUARD + n { 0.25 * (i - GUARD + 1) as f32 } else { -7.0 });
+    w.slice_axis_inplace(Axis(0), Slice::from(GUARD..GUARD + n));
+    w
 }
 
 fn bits_of<A: Elem, S: Data<Elem = A>, D: Dimension>(a: &ArrayBase<S, D>) -> Vec<u64> {
@@ -378,6 +410,22 @@ impl Counters {
     fn bump(&mut self, k: &str, n: u64) {
         *self.stats.entry(k.to_string()).or_insert(0) += n;
     }
+}
+
+/// Long id lists are abbreviated in messages (the case JSON is what replays).
+fn short<T: std::fmt::Debug>(v: &[T]) -> String {
+    if v.len() <= 24 {
+        format!("{:?}", v)
+    } else {
+        format!("{:?} ... {:?} ({} items)", &v[..10], &v[v.len() - 4..], v.len())
+    }
+}
+fn hash_key(phase: i64, i: i64, ids: &[i64]) -> u64 {
+    use std::hash::{Hash, Hasher};
+    let mut h = std::collections::hash_map::DefaultHasher::new(); // fixed keys: deterministic
+    (phase, i).hash(&mut h);
+    ids.hash(&mut h);
+    h.finish()
 }
 
 fn case_json(c: &Case) -> Value {
@@ -412,7 +460,7 @@ fn check_pair(op: &str, i: usize, train: &Part, valid: &Part, rf: &Ref, folds: &
     if &va != eva {
         viols.push(Violation::new(
             format!("{}.validation_block_wrong", op),
-            format!("n={} k={} fold {}: validation samples {:?}, expected the consecutive block {:?} (fold size n div k = {})", c.n, c.k, i, va, eva, c.n / c.k),
+            format!("n={} k={} fold {}: validation samples {}, expected the consecutive block {} (fold size n div k = {})", c.n, c.k, i, short(&va), short(eva), c.n / c.k),
             case_json(c),
         ));
     }
@@ -421,7 +469,7 @@ fn check_pair(op: &str, i: usize, train: &Part, valid: &Part, rf: &Ref, folds: &
     if &s != etr {
         viols.push(Violation::new(
             format!("{}.training_not_complement", op),
-            format!("n={} k={} fold {}: training samples {:?} (validation {:?}); expected the complement {:?} (tail included)", c.n, c.k, i, tr, va, etr),
+            format!("n={} k={} fold {}: training samples {} (validation {}); expected the complement {} (tail included)", c.n, c.k, i, short(&tr), short(&va), short(etr)),
             case_json(c),
         ));
     }
@@ -445,12 +493,9 @@ fn fold_core<F: Elem, E: Elem, I: TargetDim, D: Data<Elem = F>, S: Data<Elem = E
     if before != rf.whole() {
         panic!("harness error: dataset of kind {} does not show the tagged rows", c.kind);
     }
-    let res = guarded(|| {
-        ds.fold(c.k)
-            .into_iter()
-            .map(|(tr, va)| (part_of(tr.records(), tr.targets()), part_of(va.records(), va.targets())))
-            .collect::<Vec<_>>()
-    });
+    let wbefore: Vec<u32> = ds.weights.iter().map(|w| w.to_bits()).collect();
+    // the pairs are converted and judged one at a time (k = n = 4097 yields 4097 x 4096 rows)
+    let res = guarded(|| ds.fold(c.k));
     let folds = ref_kfold(c.n, c.k);
     // closed form of one known wrong behaviour: fold size taken from the number of target ELEMENTS
     let fs_elems = (c.n * c.tcols) / c.k;
@@ -476,12 +521,13 @@ fn fold_core<F: Elem, E: Elem, I: TargetDim, D: Data<Elem = F>, S: Data<Elem = E
             return;
         }
     };
-    if elems_form_possible && !pairs.is_empty() && pairs[0].1.rows == fs_elems.min(c.n) {
+    let first_valid_rows = pairs.first().map(|(_, va)| va.records().nrows()).unwrap_or(0);
+    if elems_form_possible && !pairs.is_empty() && first_valid_rows == fs_elems.min(c.n) {
         viols.push(Violation::new(
             "fold.ix2_targets.fold_size_from_element_count",
             format!(
                 "fold({}) on {} samples with {} target columns: validation part 0 has {} samples = min(n, n*t div k = {}), expected n div k = {} ({} pairs returned)",
-                c.k, c.n, c.tcols, pairs[0].1.rows, fs_elems, c.n / c.k, pairs.len()
+                c.k, c.n, c.tcols, first_valid_rows, fs_elems, c.n / c.k, pairs.len()
             ),
             case_json(c),
         ));
@@ -491,8 +537,10 @@ fn fold_core<F: Elem, E: Elem, I: TargetDim, D: Data<Elem = F>, S: Data<Elem = E
         viols.push(Violation::new("fold.wrong_fold_count", format!("fold({}) on {} samples returned {} pairs", c.k, c.n, pairs.len()), case_json(c)));
         return;
     }
-    for (i, (tr, va)) in pairs.iter().enumerate() {
-        if let Some(ids) = check_pair("fold", i, tr, va, rf, &folds, c, viols) {
+    for (i, (trd, vad)) in pairs.into_iter().enumerate() {
+        let (tr, va) = (part_of(trd.records(), trd.targets()), part_of(vad.records(), vad.targets()));
+        drop((trd, vad));
+        if let Some(ids) = check_pair("fold", i, &tr, &va, rf, &folds, c, viols) {
             if ids == folds[i].0 {
                 cnt.bump("fold_training_parts_in_original_order", 1);
             } else {
@@ -503,24 +551,24 @@ fn fold_core<F: Elem, E: Elem, I: TargetDim, D: Data<Elem = F>, S: Data<Elem = E
     if part_of(&ds.records, &ds.targets) != before {
         viols.push(Violation::new("fold.dataset_modified", format!("fold({}) changed the dataset it borrows immutably", c.k), case_json(c)));
     }
+    if ds.weights.iter().map(|w| w.to_bits()).collect::<Vec<u32>>() != wbefore {
+        viols.push(Violation::new("fold.weights_modified", format!("fold({}) changed the weights of the dataset", c.k), case_json(c)));
+    }
 }
 
 fn run_fold<F: Elem, E: Elem, I: TargetDim>(c: &Case, viols: &mut Vec<Violation>, cnt: &mut Counters) {
     let rf = Ref::new::<F, E>(c);
     let (prec, ptgt) = build_parents::<F, E>(c);
-    match c.kind.as_str() {
-        "owned" => {
-            let ds = DatasetBase::new(rec_view(&prec, c).to_owned(), tgt_view::<E, I>(&ptgt, c).to_owned());
-            fold_core(&ds, c, &rf, viols, cnt);
+    if is_owned_kind(&c.kind) {
+        let (r, t) = owned_arrays::<F, E, I>(&prec, &ptgt, c);
+        let mut ds = DatasetBase::new(r, t);
+        if c.kind.starts_with("owned_sliced") {
+            ds = ds.with_weights(sliced_weights(c.n));
         }
-        "owned_forder" => {
-            let ds = DatasetBase::new(prec.clone(), ptgt.clone().into_dimensionality::<I>().unwrap());
-            fold_core(&ds, c, &rf, viols, cnt);
-        }
-        _ => {
-            let ds = DatasetBase::new(rec_view(&prec, c), tgt_view::<E, I>(&ptgt, c));
-            fold_core(&ds, c, &rf, viols, cnt);
-        }
+        fold_core(&ds, c, &rf, viols, cnt);
+    } else {
+        let ds = DatasetBase::new(rec_view(&prec, c), tgt_view::<E, I>(&ptgt, c));
+        fold_core(&ds, c, &rf, viols, cnt);
     }
 }
 
@@ -566,12 +614,10 @@ fn iter_fold_core<F: Elem, E: Elem, I: TargetDim, D: DataMut<Elem = F>, S: DataM
         let it = ds.iter_fold(c.k, |train| {
             let p = part_of(train.records(), train.targets());
             let no = calls.borrow().len();
-            calls.borrow_mut().push(p.clone());
-            (no, p)
+            calls.borrow_mut().push(p);
+            no
         });
-        it.take(consume)
-            .map(|((no, p), valid)| (no, p, part_of(valid.records(), valid.targets())))
-            .collect::<Vec<_>>()
+        it.take(consume).map(|(no, valid)| (no, part_of(valid.records(), valid.targets()))).collect::<Vec<_>>()
     });
     let after = part_of(&ds.records, &ds.targets);
     let calls = calls.into_inner();
@@ -596,11 +642,9 @@ fn iter_fold_core<F: Elem, E: Elem, I: TargetDim, D: DataMut<Elem = F>, S: DataM
     let fs = c.n / c.k;
 
     // ---- explicit states: what the probe saw, in order -------------------------------------------
-    let mut seen: HashSet<Vec<i64>> = HashSet::new();
+    let mut seen: HashSet<u64> = HashSet::new();
     let mut key = |phase: i64, i: i64, ids: Vec<i64>| {
-        let mut v = vec![phase, i];
-        v.extend(ids);
-        seen.insert(v);
+        seen.insert(hash_key(phase, i, &ids));
     };
     key(0, 0, ids_lossy(rf, &before));
     // lock-step reference buffer: swap-in(c), fit(c), swap-back(c)
@@ -637,10 +681,11 @@ fn iter_fold_core<F: Elem, E: Elem, I: TargetDim, D: DataMut<Elem = F>, S: DataM
             if calls.len() != c.k {
                 cnt.bump("iter_fold_closure_calls_differ_from_k", 1);
             }
-            for (i, (_no, train, valid)) in list.iter().enumerate() {
+            for (i, (no, valid)) in list.iter().enumerate() {
                 key(2, i as i64, ids_lossy(rf, valid));
                 if i < c.k {
-                    check_pair("iter_fold", i, train, valid, rf, &folds, c, viols);
+                    // the object paired with validation view i is what the closure returned at call `no`
+                    check_pair("iter_fold", i, &calls[*no], valid, rf, &folds, c, viols);
                 }
             }
             // a training view shown to the closure but never paired (iterator dropped early) must
@@ -654,7 +699,7 @@ fn iter_fold_core<F: Elem, E: Elem, I: TargetDim, D: DataMut<Elem = F>, S: DataM
                                 if ids != folds[no].0 {
                                     viols.push(Violation::new(
                                         "iter_fold.training_not_complement",
-                                        format!("n={} k={} closure call {}: training samples {:?}, expected the complement of block {}: {:?}", c.n, c.k, no, ids, no, folds[no].0),
+                                        format!("n={} k={} closure call {}: training samples {}, expected the complement of block {}: {}", c.n, c.k, no, short(&ids), no, short(&folds[no].0)),
                                         cj.clone(),
                                     ));
                                 }
@@ -672,10 +717,10 @@ fn iter_fold_core<F: Elem, E: Elem, I: TargetDim, D: DataMut<Elem = F>, S: DataM
         viols.push(Violation::new(
             restored_sig("iter_fold", &before, &after),
             format!(
-                "after iter_fold({}) on {} samples ({} features, {} target columns, {}) the dataset holds samples {:?} with target rows of samples {:?}; expected the original order 0..{}",
+                "after iter_fold({}) on {} samples ({} features, {} target columns, {}) the dataset holds samples {} with target rows of samples {}; expected the original order 0..{}",
                 c.k, c.n, c.f, c.tcols, c.kind,
-                ids_lossy(rf, &after),
-                tgt_ids_lossy(rf, &after),
+                short(&ids_lossy(rf, &after)),
+                short(&tgt_ids_lossy(rf, &after)),
                 c.n
             ),
             cj.clone(),
@@ -684,41 +729,60 @@ fn iter_fold_core<F: Elem, E: Elem, I: TargetDim, D: DataMut<Elem = F>, S: DataM
 }
 
 /// Runs `body` on a freshly built mutable dataset of the case's kind; afterwards checks that the
-/// parent buffer outside the dataset's window (guard rows, interleaved rows) was not written.
+/// parent buffer outside the dataset's window (guard rows, interleaved rows) was not written and,
+/// for the sliced owned kinds, that the weights are what they were.
 macro_rules! with_mut_dataset {
     ($F:ty, $E:ty, $I:ty, $c:expr, $op:expr, $viols:expr, |$ds:ident| $body:block) => {{
         let c: &Case = $c;
         let (mut prec, mut ptgt) = build_parents::<$F, $E>(c);
-        match c.kind.as_str() {
-            "owned" => {
-                let mut d = DatasetBase::new(rec_view(&prec, c).to_owned(), tgt_view::<$E, $I>(&ptgt, c).to_owned());
+        if is_owned_kind(&c.kind) {
+            let (r, t) = owned_arrays::<$F, $E, $I>(&prec, &ptgt, c);
+            let mut d = DatasetBase::new(r, t);
+            let sliced = c.kind.starts_with("owned_sliced");
+            if sliced {
+                d = d.with_weights(sliced_weights(c.n));
+            }
+            let wbefore: Vec<u32> = d.weights.iter().map(|w| w.to_bits()).collect();
+            let vis = part_of(&d.records, &d.targets);
+            {
                 let $ds = &mut d;
                 $body
             }
-            "owned_forder" => {
-                let mut d = DatasetBase::new(prec.clone(), ptgt.clone().into_dimensionality::<$I>().unwrap());
-                let $ds = &mut d;
-                $body
+            if d.weights.iter().map(|w| w.to_bits()).collect::<Vec<u32>>() != wbefore {
+                $viols.push(Violation::new(format!("{}.weights_modified", $op), format!("{} on a {} dataset changed the sample weights", $op, c.kind), case_json(c)));
             }
-            _ => {
-                let rb = bits_of(&prec);
-                let tb = bits_of(&ptgt);
-                let vis_r: Vec<u64> = bits_of(&rec_view(&prec, c));
-                let vis_t: Vec<u64> = bits_of(&tgt_view::<$E, $I>(&ptgt, c));
-                {
-                    let mut d = DatasetBase::new(rec_view_mut(&mut prec, c), tgt_view_mut::<$E, $I>(&mut ptgt, c));
-                    let $ds = &mut d;
-                    $body
-                }
-                // rows visible through the window are judged by the body; here: everything else
-                let window_same = bits_of(&rec_view(&prec, c)) == vis_r && bits_of(&tgt_view::<$E, $I>(&ptgt, c)) == vis_t;
-                if window_same && (bits_of(&prec) != rb || bits_of(&ptgt) != tb) {
+            if sliced && part_of(&d.records, &d.targets) == vis {
+                // the whole allocations, in memory order: everything outside the window must be untouched
+                let raw_r: Vec<u64> = d.records.into_raw_vec().into_iter().map(|x| x.bits()).collect();
+                let raw_t: Vec<u64> = d.targets.into_raw_vec().into_iter().map(|x| x.bits()).collect();
+                let par_r: Vec<u64> = prec.clone().into_raw_vec().into_iter().map(|x| x.bits()).collect();
+                let par_t: Vec<u64> = ptgt.clone().into_raw_vec().into_iter().map(|x| x.bits()).collect();
+                if raw_r != par_r || raw_t != par_t {
                     $viols.push(Violation::new(
                         format!("{}.wrote_outside_dataset_window", $op),
-                        format!("{} on a {} dataset changed buffer elements that do not belong to the dataset (guard / interleaved rows)", $op, c.kind),
+                        format!("{} on a {} dataset changed elements of the allocation that do not belong to the array", $op, c.kind),
                         case_json(c),
                     ));
                 }
+            }
+        } else {
+            let rb = bits_of(&prec);
+            let tb = bits_of(&ptgt);
+            let vis_r: Vec<u64> = bits_of(&rec_view(&prec, c));
+            let vis_t: Vec<u64> = bits_of(&tgt_view::<$E, $I>(&ptgt, c));
+            {
+                let mut d = DatasetBase::new(rec_view_mut(&mut prec, c), tgt_view_mut::<$E, $I>(&mut ptgt, c));
+                let $ds = &mut d;
+                $body
+            }
+            // rows visible through the window are judged by the body; here: everything else
+            let window_same = bits_of(&rec_view(&prec, c)) == vis_r && bits_of(&tgt_view::<$E, $I>(&ptgt, c)) == vis_t;
+            if window_same && (bits_of(&prec) != rb || bits_of(&ptgt) != tb) {
+                $viols.push(Violation::new(
+                    format!("{}.wrote_outside_dataset_window", $op),
+                    format!("{} on a {} dataset changed buffer elements that do not belong to the dataset (guard / interleaved rows)", $op, c.kind),
+                    case_json(c),
+                ));
             }
         }
     }};
@@ -771,9 +835,12 @@ fn fp_row(rec: &[u64], tgt: &[u64]) -> u64 {
 fn fingerprint(p: &Part) -> u64 {
     (0..p.rows.min(p.trows)).fold(0u64, |a, r| a.wrapping_add(fp_row(p.rec_row(r), p.tgt_row(r))))
 }
+/// Model ids sit above every row-dependent part of a prediction (3*4096 + 14 + 64 << 1e6), so the
+/// evaluation closure can tell which model a prediction vector came from.
+const MODEL_STRIDE: f64 = 1.0e6;
 /// Prediction of model `mid` (trained on rows with fingerprint `fp`) for the row with tag rowid.
 fn pred_value(rowid: f64, col: usize, mid: usize, fp: u64) -> f64 {
-    3.0 * rowid + 7.0 * col as f64 + 1000.0 * (mid as f64 + 1.0) + (fp % 512) as f64 / 8.0
+    3.0 * rowid + 7.0 * col as f64 + MODEL_STRIDE * (mid as f64 + 1.0) + (fp % 512) as f64 / 8.0
 }
 
 struct FitCall {
@@ -889,7 +956,7 @@ type EvalLog = RefCell<Vec<(Vec<Vec<u64>>, Vec<Vec<u64>>)>>;
 fn eval_body(c: &Case, fault: &FaultSpec, log: &EvalLog, p: Vec<Vec<f64>>, t: Vec<Vec<f64>>) -> Result<Vec<f64>, linfa::Error> {
     log.borrow_mut().push((to_bits(&p), to_bits(&t)));
     let fs = (c.n / c.k.max(1)).max(1);
-    let model = p.first().and_then(|r| r.first()).map(|&x| ((x / 1000.0).floor() as i64 - 1).max(0) as usize);
+    let model = p.first().and_then(|r| r.first()).map(|&x| ((x / MODEL_STRIDE).floor() as i64 - 1).max(0) as usize);
     let fold = t.first().and_then(|r| r.first()).map(|&x| (((x - 10000.0) / 100.0).floor().max(0.0) as usize) / fs);
     if let (Some((fm, ff)), Some(m), Some(fo)) = (fault.eval_fault(), model, fold) {
         if fm == m && ff == fo {
@@ -1087,7 +1154,7 @@ fn check_cv(op: &str, c: &Case, fault: &FaultSpec, rf: &Ref, exp: &CvExpect, out
                 if held.map_or(true, |h| exp.train_sets[h] != ids) {
                     viols.push(Violation::new(
                         format!("{}.fit_on_wrong_training_set", op),
-                        format!("{}: fit call {} was given samples {:?}, which is the complement of no validation block (blocks of {} samples)", head, no, ids, fs),
+                        format!("{}: fit call {} was given samples {}, which is the complement of no validation block (blocks of {} samples)", head, no, short(&ids), fs),
                         cj.clone(),
                     ));
                     break;
@@ -1103,7 +1170,7 @@ fn check_cv(op: &str, c: &Case, fault: &FaultSpec, rf: &Ref, exp: &CvExpect, out
     let mut evaluated = vec![false; exp.eval_calls.len()];
     for (no, call) in evals.iter().enumerate() {
         let fold = call.1.first().and_then(|r| rf.tgt_id(r)).map(|i| i / fs);
-        let model = call.0.first().and_then(|r| r.first()).map(|&b| ((f64::from_bits(b) / 1000.0).floor() as i64 - 1).max(0) as usize);
+        let model = call.0.first().and_then(|r| r.first()).map(|&b| ((f64::from_bits(b) / MODEL_STRIDE).floor() as i64 - 1).max(0) as usize);
         let idx = match (fold, model) {
             (Some(fo), Some(mo)) if fo < c.k && mo < c.m => Some(fo * c.m + mo),
             _ => None,
@@ -1115,7 +1182,7 @@ fn check_cv(op: &str, c: &Case, fault: &FaultSpec, rf: &Ref, exp: &CvExpect, out
                 let t: Vec<Vec<f64>> = call.1.iter().map(|r| r.iter().map(|&b| f64::from_bits(b)).collect()).collect();
                 viols.push(Violation::new(
                     format!("{}.eval_called_with_wrong_arguments", op),
-                    format!("{}: evaluation call {} got predictions {:?} and targets {:?}: not (predictions of a model fitted on a fold's training part, that fold's validation targets)", head, no, p, t),
+                    format!("{}: evaluation call {} got predictions {} and targets {}: not (predictions of a model fitted on a fold's training part, that fold's validation targets)", head, no, short(&p), short(&t)),
                     cj.clone(),
                 ));
                 break;
@@ -1135,10 +1202,10 @@ fn check_cv(op: &str, c: &Case, fault: &FaultSpec, rf: &Ref, exp: &CvExpect, out
         viols.push(Violation::new(
             restored_sig(op, before, after),
             format!(
-                "after {} the dataset holds samples {:?} with target rows of samples {:?}; expected the original order",
+                "after {} the dataset holds samples {} with target rows of samples {}; expected the original order",
                 head,
-                ids_lossy(rf, after),
-                tgt_ids_lossy(rf, after)
+                short(&ids_lossy(rf, after)),
+                short(&tgt_ids_lossy(rf, after))
             ),
             cj,
         ));
@@ -1268,7 +1335,30 @@ fn run_degenerate<I: TargetDim>(c: &Case, viols: &mut Vec<Violation>, cnt: &mut 
 // dispatch, replay, main
 // ------------------------------------------------------------------------------------------------
 
+/// Runs the case; when a non-plain storage kind fails while the same logical dataset in fresh
+/// standard-layout arrays does not, the failure is additionally reported as `<op>.layout_dependence`.
 fn run_case(c: &Case, viols: &mut Vec<Violation>) -> Counters {
+    let before = viols.len();
+    let cnt = run_case_inner(c, viols);
+    if viols.len() > before && family(&c.kind) != "plain" {
+        let mut twin = c.clone();
+        twin.kind = "owned".into();
+        let mut tv = Vec::new();
+        run_case_inner(&twin, &mut tv);
+        if tv.is_empty() {
+            let first = viols[before].what.clone();
+            let n_new = viols.len() - before;
+            viols.push(Violation::new(
+                format!("{}.layout_dependence", c.op),
+                format!("{} violation(s) with storage kind {} ({}), none for the same dataset in standard-layout owned arrays; first: {}", n_new, c.kind, family(&c.kind), first),
+                case_json(c),
+            ));
+        }
+    }
+    cnt
+}
+
+fn run_case_inner(c: &Case, viols: &mut Vec<Violation>) -> Counters {
     let mut cnt = Counters::default();
     match (c.op.as_str(), c.elem.as_str(), c.tix) {
         ("fold", "f64/f64", 1) => run_fold::<f64, f64, Ix1>(c, viols, &mut cnt),
@@ -1317,10 +1407,14 @@ fn main() {
     let full_menu_n: usize = ctx.pick(8, 12); // above this n only the "mae" closure is combined with the full fault menu
     ctx.set_rule(&format!(
         "every (n, k, f, target shape, storage kind, element types): n = 1..{nmax}, k = 2..n, f in 1..3 features, targets 1-d and 2-d with 1..3 columns; \
-         fold on owned / view / row-strided view / column-sliced view / column-major owned; iter_fold on owned / ArrayViewMut / ArrayViewMut window with guard rows \
-         (+ row-strided and column-major storage for the documented panic), element types f64/f64 and f32/u32, iterator consumed completely and dropped unconsumed; \
-         cross_validate (all target shapes) and cross_validate_single (1-d) on the three contiguous kinds x 1..3 mock models x 4 evaluation closures x the fault menu \
+         fold on owned / view / row-strided view (poison rows between) / column-sliced view / column-major owned / reversed-row view of a reversed copy / transposed view of a feature-major array / \
+         owned array sliced out of a larger allocation by rows (standard layout, offset start, with sliced weights) and by columns; iter_fold on owned / ArrayViewMut / ArrayViewMut window with guard rows / \
+         owned row-slice of a larger allocation (in domain: guard elements of the allocation and the weights must stay untouched) + row-strided, column-major, reversed, transposed, column-sliced storage for the documented panic, \
+         element types f64/f64 and f32/u32, iterator consumed completely and dropped unconsumed; \
+         cross_validate (all target shapes) and cross_validate_single (1-d) on the three contiguous kinds x 1..3 mock models x 4 evaluation closures x the fault menu (+ the owned row-slice kind with 'mae' and 1 / 3 models) \
          (none; fit error of every model at every fold; eval error for every model at every fold; one double fault; for n > {full_menu_n} the closures other than 'mae' get the short menu: none, fit error of the last model at fold 0, eval error for model 0 at the last fold, the double fault); degenerate k in {{0, 1, n+1, n+2}} for documented behaviour only. \
+         size family: n in {{1025}} (quick) / {{1025, 4097}} (thorough) x k in {{2, 3, 7, 1024, n}}, 3 features (17 for two extra groups), 1-d and 2-d x2 targets, fold / iter_fold / cross_validate(_single) (1 model, 'mae', short fault menu) \
+         on standard, strided, column-major, transposed, reversed and sliced-owned storage through the same partition oracle (k = n = 4097: 1 feature, 1-d targets, fresh owned arrays only). \
          evaluation = one call of fold / iter_fold / cross_validate(_single) on a freshly built dataset; non-trivial = in-domain call (2 <= k <= n, standard layout where required) whose result is \
          compared with the reference; distinct by construction (nested loops over the parameter grid). iter_fold states = distinct (phase, fold index, visible sample order) observations per trace \
          (initial buffer, training view inside every closure call, every yielded validation view, final buffer); transitions = swap-in + fit + swap-back per closure call (reference buffer stepped in lock-step) + yields."
@@ -1331,6 +1425,7 @@ fn main() {
     ctx.assume("mock fit fingerprints the training rows order-independently; the evaluation closure handed to linfa and the reference loop share the plain-Vec evaluation function (the plumbing is under test, not the metric)");
     ctx.assume("with a double fault either injected error is accepted; which fold's error surfaces first is not specified");
     ctx.assume("k = 0, k = 1, k > n and non-standard layouts are outside the statement: iter_fold's documented panics / validity are checked, fold and cross_validate outcomes are only recorded");
+    ctx.assume("layouts: every storage kind is judged by the same layout-free reference (sharper than comparing with the standard-layout run); a failure of a non-plain kind whose standard-layout twin passes is additionally reported as <op>.layout_dependence");
     ctx.assume("trusted base: ndarray (views, slicing, is_standard_layout), serde_json");
 
     // ---------------- enumerate ----------------
@@ -1348,6 +1443,20 @@ fn main() {
                         }
                         for kind in ITER_KINDS {
                             cases.push(base("iter_fold", n, k, f, tix, tcols, kind, elem));
+                        }
+                    }
+                    // sliced owned arrays (+ sliced weights): a modest subset of the cross-validation grid
+                    for kind in CV_KINDS_SUBSET {
+                        for m in [1usize, 3] {
+                            let mut c = base("cv", n, k, f, tix, tcols, kind, "f64/f64");
+                            c.m = m;
+                            c.eval = "mae".into();
+                            c.menu = if n <= full_menu_n { "full".into() } else { "short".into() };
+                            cases.push(c.clone());
+                            if tix == 1 {
+                                c.op = "cv_single".into();
+                                cases.push(c);
+                            }
                         }
                     }
                     for kind in CV_KINDS {
@@ -1378,9 +1487,61 @@ fn main() {
             }
         }
     }
+    // ---------------- size family: the same oracles above the 1024 / 4096 row thresholds ----------------
+    let big_ns: Vec<usize> = ctx.pick(vec![1025], vec![1025, 4097]);
+    let mut big_groups = 0u64;
+    for &n in big_ns.iter() {
+        for k in [2usize, 3, 7, 1024, n] {
+            // k = n = 4097 returns / shows 4097 x 4096 rows: one feature, 1-d targets, fresh owned arrays only
+            let full = !(n == 4097 && k == n);
+            let fs: Vec<usize> = if full { vec![3] } else { vec![1] };
+            let shapes: Vec<(usize, usize)> = if full { vec![(1, 1), (2, 2)] } else { vec![(1, 1)] };
+            let fold_kinds: Vec<&str> = if full { vec!["owned", "view_strided", "owned_forder", "view_transposed", "view_reversed", "owned_sliced"] } else { vec!["owned"] };
+            let iter_kinds: Vec<&str> = if full { vec!["owned", "viewmut_window", "owned_sliced"] } else { vec!["owned"] };
+            let cv_kinds: Vec<&str> = if full { vec!["owned", "owned_sliced"] } else { vec!["owned"] };
+            for &f in fs.iter() {
+                for &(tix, tcols) in shapes.iter() {
+                    for kind in fold_kinds.iter() {
+                        cases.push(base("fold", n, k, f, tix, tcols, kind, "f64/f64"));
+                        big_groups += 1;
+                    }
+                    for kind in iter_kinds.iter() {
+                        let mut c = base("iter_fold", n, k, f, tix, tcols, kind, "f64/f64");
+                        c.consume = Some(ALL);
+                        cases.push(c);
+                        big_groups += 1;
+                    }
+                    for kind in cv_kinds.iter() {
+                        let mut c = base("cv", n, k, f, tix, tcols, kind, "f64/f64");
+                        c.m = 1;
+                        c.eval = "mae".into();
+                        c.menu = "short".into();
+                        cases.push(c.clone());
+                        big_groups += 1;
+                        if tix == 1 {
+                            c.op = "cv_single".into();
+                            cases.push(c);
+                            big_groups += 1;
+                        }
+                    }
+                }
+            }
+        }
+        // wide records (17 features) at the smaller size
+        if n == 1025 {
+            for k in [2usize, 7] {
+                cases.push(base("fold", n, k, 17, 2, 2, "owned", "f64/f64"));
+                let mut c = base("iter_fold", n, k, 17, 2, 2, "owned", "f64/f64");
+                c.consume = Some(ALL);
+                cases.push(c);
+                big_groups += 2;
+            }
+        }
+    }
+    ctx.extra("size_family_case_groups", json!(big_groups));
     ctx.extra("case_groups_enumerated", json!(cases.len()));
     // heavy groups first for load balance
-    cases.sort_by_key(|c| std::cmp::Reverse(if c.op.starts_with("cv") { c.n * c.k * c.m * c.k } else { 0 }));
+    cases.sort_by_key(|c| std::cmp::Reverse(if c.n > 100 { c.n * c.n * c.k.min(64) } else if c.op.starts_with("cv") { c.n * c.k * c.m * c.k } else { 0 }));
 
     let done = std::sync::atomic::AtomicU64::new(0);
     let stats: Mutex<BTreeMap<String, u64>> = Mutex::new(BTreeMap::new());
@@ -1393,6 +1554,10 @@ fn main() {
         {
             let mut s = stats.lock().unwrap();
             *s.entry(format!("runs_{}", c.op)).or_insert(0) += cnt.evals;
+            *s.entry(format!("runs_layout_{}", family(&c.kind))).or_insert(0) += cnt.evals;
+            if c.n > 100 {
+                *s.entry(format!("runs_size_family_n{}", c.n)).or_insert(0) += cnt.evals;
+            }
             for (k, n) in cnt.stats {
                 *s.entry(k).or_insert(0) += n;
             }
